@@ -57,17 +57,17 @@ pub fn judge(ctx: &mut Ctx, idx: u64, rng: &mut Rng, origin: &str, tree: &HNode,
                         }
                     }
                     (Err(_), Err(_)) | (Ok(Err(_)), Ok(Err(_))) => None,
-                    (x, y) => Some(format!("solve(Full, 3): {:?} with String keys, {:?} with colliding-hash keys", x.map(|r| r.map(|t| t.2)), y.map(|r| r.map(|t| t.2)))),
+                    (x, y) => Some(format!("solve(Full, 3): {:?} with String keys, {:?} with the exotic presentation", x.map(|r| r.map(|t| t.2)), y.map(|r| r.map(|t| t.2)))),
                 }
             }
             (Ok(Err(_)), Ok(Err(_))) | (Err(_), Err(_)) => None,
-            (a, b) => Some(format!("from_root: {} with String keys, {} with colliding-hash keys", outcome_name(a), outcome_name(b))),
+            (a, b) => Some(format!("from_root: {} with String keys, {} with the exotic presentation", outcome_name(a), outcome_name(b))),
         };
         if let Some(what) = same {
             ctx.violation(
                 idx,
-                "C11:verdict-or-result-depends-on-key-hashes",
-                &format!("the same tree built with names whose Hash collides (equal names still compare equal) behaves differently: {} ({})", what, origin),
+                "C11:verdict-or-result-depends-on-key-or-iterator-types",
+                &format!("the same tree built through names whose Hash collides and whose Eq ignores case, and child iterators with unhelpful size hints, behaves differently: {} ({})", what, origin),
                 json!({"game": tree.to_json(), "origin": origin}),
             );
             return false;
